@@ -205,6 +205,12 @@ pub fn templates() -> Vec<(&'static str, Vec<u16>, bool)> {
     v.push(("top-of-user-space", vec![0xFDFD, 0x1021, 0x1021, 0x1021], false));
     v.push(("stack-gate", vec![0x3000, 0x1021, 0xD400, 0x1021], false));
     v.push(("stack-default-sp", vec![0x3000, 0xD400, 0xD040, 0xF025], true));
+    // an ESC character among others, through every character-printing trap: the `--minimal`
+    // output drops the ESC itself (not judged), every other character must still be printed
+    v.push(("esc-among-others-putsp", vec![0x3000, 0xE002, 0xF024, 0xF025, 0x6948, 0x411B, 0x0021, 0x0000], false));
+    v.push(("esc-among-others-putsp-high-byte", vec![0x3000, 0xE002, 0xF024, 0xF025, 0x1B48, 0x4241, 0x0000], false));
+    v.push(("esc-among-others-puts", vec![0x3000, 0xE002, 0xF022, 0xF025, 0x0048, 0x001B, 0x0041, 0x005B, 0x0021, 0x0000], false));
+    v.push(("esc-among-others-out", vec![0x3000, 0x2006, 0xF021, 0x2006, 0xF021, 0x2003, 0xF021, 0xF025, 0x001B, 0x0041], false));
     v
 }
 
@@ -407,8 +413,9 @@ pub fn run(ctx: &Ctx) -> i32 {
         let out = program_output(&run.out()).unwrap_or_default();
         // what the program printed, without HALT's banner
         let out = out.replace("\n      Halted\n", "").replace("\n      Halted", "");
-        let judged_output = !io.out_unjudged && !io.out.contains('\x1b') && !name.starts_with("in");
-        if judged_output && out.trim_end_matches('\n') != io.out.trim_end_matches('\n') {
+        // (the ESC character itself is not judged under `--minimal`: it is removed on both sides)
+        let judged_output = !io.out_unjudged && !name.starts_with("in");
+        if judged_output && out.replace('\x1b', "").trim_end_matches('\n') != io.out.replace('\x1b', "").trim_end_matches('\n') {
             acc.violation(format!("C03/cli/{name}/output"), format!("{name} with input {input:02x?}: printed {out:?}, model prints {:?}", io.out), case);
             return;
         }
@@ -419,14 +426,44 @@ pub fn run(ctx: &Ctx) -> i32 {
     for p in parts {
         all.merge(p);
     }
+    // (g) GETC and IN read "a character" through the same routine: for every input byte 0..255
+    //     the register dump after GETC and after IN must show the same R0 (and, for ASCII, the byte)
+    {
+        let parts = pooled(None, 256, 8, Acc::new, |acc, b| {
+            acc.eval("g/getc-in-agree");
+            let mut r0 = Vec::new();
+            for (name, trap) in [("getc", 0xF020u16), ("in", 0xF023)] {
+                let file = format!("g{b}-{name}.lc3");
+                lace.write(&file, &be_bytes(&[0x3000, trap, 0xF027, 0xF025]));
+                let run = lace.run(&["run", &file, "--minimal"], &[b as u8]);
+                let _ = std::fs::remove_file(lace.cwd.join(&file));
+                // (IN echoes the character in front of the dump's first line)
+                let out = run.out();
+                let line = out.find("R0 x").map(|p| out[p..].lines().next().unwrap_or("").trim().to_string());
+                r0.push((run.status, line));
+            }
+            let case = json!({"getc_in": true, "byte": b});
+            if r0[0] != r0[1] {
+                acc.violation(format!("C03/cli/getc-in-disagree/{}", if b < 0x80 { "ascii" } else { "non-ascii" }), format!("input byte x{b:02x}: after GETC the dump shows {:?} (exit {}), after IN {:?} (exit {})", r0[0].1, r0[0].0, r0[1].1, r0[1].0), case);
+            } else if b < 0x80 && r0[0].1.as_deref().map(|l| l.eq_ignore_ascii_case(&format!("R0 x{b:04x}"))) != Some(true) {
+                acc.violation("C03/cli/getc-in-wrong-value/ascii", format!("input byte x{b:02x}: the dump shows {:?}", r0[0].1), case);
+            } else {
+                acc.nontrivial();
+                acc.gate("getc-and-in-agree");
+            }
+        });
+        for p in parts {
+            all.merge(p);
+        }
+    }
 
     finish(
         ctx,
         all,
         Level { category: "model_checking", bfs: None },
-        "bounded-exhaustive enumeration of images, each run on the real VM under a step budget and on the reference machine for exactly as many instructions: (a) all 65,536 one-word images under both feature flags, (b) all two-word images over an opcode-covering alphabet (128 quick / 2048 thorough words), all three-word images over 24 / 128 words and all four-word images over 8 / 40 words, (c) one image touching its neighbourhood at every origin (stride 16 quick), (d) parameterised structured templates (counted loops, nested JSR/RET, recursive CALL/RETS, self-modifying store, running off the end, computed jumps to xFFFF / below origin / >= xFE00, address wrap, every output trap, spinning under fuel, top of user space, stack gate), (e) three input programs x every byte stream of length <= 2 over 7 bytes incl. non-ASCII and premature end of input, plus all templates, through the real binary (exit status and stdout), (f) the source path (RunEnvironment::try_from): every one-word data program and all two- and three-word programs over six words at four origins, machine right after loading vs the model. Oracle: state right after load; how and after how many instructions the run stops; final registers/PC/CC/all memory; program output. non-trivial = runs that agreed",
+        "bounded-exhaustive enumeration of images, each run on the real VM under a step budget and on the reference machine for exactly as many instructions: (a) all 65,536 one-word images under both feature flags, (b) all two-word images over an opcode-covering alphabet (128 quick / 2048 thorough words), all three-word images over 24 / 128 words and all four-word images over 8 / 40 words, (c) one image touching its neighbourhood at every origin (stride 16 quick), (d) parameterised structured templates (counted loops, nested JSR/RET, recursive CALL/RETS, self-modifying store, running off the end, computed jumps to xFFFF / below origin / >= xFE00, address wrap, every output trap, spinning under fuel, top of user space, stack gate), (e) three input programs x every byte stream of length <= 2 over 7 bytes incl. non-ASCII and premature end of input, plus all templates, through the real binary (exit status and stdout), (f) the source path (RunEnvironment::try_from): every one-word data program and all two- and three-word programs over six words at four origins, machine right after loading vs the model, (g) GETC and IN followed by REG for every input byte 0..255 through the real binary: the same R0 after both, and the byte itself for ASCII. Oracle: state right after load; how and after how many instructions the run stops; final registers/PC/CC/all memory; program output. non-trivial = runs that agreed",
         true,
-        &["normal-end", "exception-end", "cut-by-fuel", "exit-1", "printed-something", "cli-exit-0", "cli-exit-1", "cli-exit-ee", "source-path-loaded"],
+        &["normal-end", "exception-end", "cut-by-fuel", "exit-1", "printed-something", "cli-exit-0", "cli-exit-1", "cli-exit-ee", "source-path-loaded", "getc-and-in-agree"],
         &["reference machine follows the measured edition facets (LEA CC, JSRR order)", "IN's prompt/echo and R0 for non-ASCII input bytes are not judged"],
         json!({"fuel": FUEL, "variant": format!("{:?}", measured())}),
     )
